@@ -19,7 +19,7 @@ func init() {
 		ID: "C18", Level: "model_checking",
 		Rule:   "ELX, both roles. Server: every sequence of <= 2 (quick) / 3 (thorough) SETTINGS frames from an alphabet (each of the six parameters at boundary and invalid values, two parameters at once, a repeated id, an unknown id, empty) interleaved at every position with 1-2 exchanges whose response header list is 100 B or 20 KB and whose body is 0 or 20 KB; plus frames above the size the server advertised. Client: the same SETTINGS alphabet sent by the scripted server before / between / during 1-2 requests with 100 B or 20 KB header lists and 0 or 20 KB bodies, MAX_CONCURRENT_STREAMS in {1,2}, frames above the size the client advertised. Oracle: exactly one ACK per SETTINGS frame, none after an invalid one (server: GOAWAY with the RFC's code; client: no further stream on the connection); every frame sent after the ACK (HEADERS and CONTINUATION included) within the peer's MAX_FRAME_SIZE; streams open at once within the peer's MAX_CONCURRENT_STREAMS; after a HEADER_TABLE_SIZE reduction the next header block starts with a size update within it and every block decodes under the peer's limit; the endpoint's own advertised MAX_FRAME_SIZE / ENABLE_PUSH=0 are on the wire and enforced. Non-trivial: >= 1 SETTINGS frame after the handshake; distinct by scenario.",
 		Assume: []string{"the peer's decoder applies a HEADER_TABLE_SIZE it advertised as soon as it has sent the SETTINGS frame", "canonical internal schedule between events"},
-		Run:    runC18, Replay: replayC18, Policies: 1, QuickS: 120, ThoroughS: 600,
+		Run:    runC18, Replay: replayC18, Policies: 1, QuickS: 200, ThoroughS: 600,
 	})
 }
 
